@@ -151,7 +151,12 @@ def build(chk):
         # identities in ~10 symbolic reals on which z3 answers unknown within the per-query limit: left out of the thorough tier
         big = fs in (('quadratic', 2, None), ('polynomial', (2, 2)))
         two = [('linear', 2), ('polynomial', (1, 1))]
-        return big and (('quadratic', 1, 1) in reps or (len(reps) == 2 and all(r in two for r in reps)))
+        if big and (('quadratic', 1, 1) in reps or (len(reps) == 2 and all(r in two for r in reps))):
+            return True
+        # two-entry maps whose replacements may mention each other's key: a degree-2 monomial in f together with the 2-monomial quadratic
+        # replacement gives degree-4 identities on which z3 answers unknown ("incomplete (theory arithmetic)")
+        deg2 = fs[0] == 'quadratic' or (fs[0] == 'polynomial' and 2 in fs[1])
+        return len(reps) == 2 and deg2 and ('quadratic', 1, 1) in reps
     for fs in f_shapes(chk.tier):
         for r0 in rs:
             if beyond_z3(fs, [r0]):
